@@ -107,7 +107,8 @@ CLAIMS['C11'] = (
 CLAIMS['C03'] = (
     'model_checking',
     'exhaustive enumeration of well-typed build scripts (<=2/3 steps) x both backends; per program explicit exploration of every single-file modification from the built state, executed by the real make / refninja with a strict recording stub toolchain',
-    'All well-typed programs with <=2 (quick, 610) / <=3 (thorough) steps over a 21-template step alphabet '
+    'All well-typed programs with <=2 steps (610) over a 21-template step alphabet; thorough: plus every 3-step '
+    'program over the 17 templates of the first version (19418 programs in all). Templates: '
     '(object files with explicit headers, executables, static/shared/versioned libraries consuming sources/objects/'
     'libraries/extra_deps, executables with a precompiled header (also one including a generated header), with '
     'per-target options, build_steps with one/two outputs/always_outdated/files named in the command/one shell '
